@@ -38,6 +38,7 @@ type StrV struct {
 	Opaque bool    // content unknown (result of formatting); B is empty
 	OLen   *Term   // symbolic length of an opaque string (64-bit)
 	Empty  *Term   // for opaque strings from table lookups: condition under which the string is ""
+	Cost   int     // opaque formatted strings: lower bound on the length (allocation model): format text plus rendered string operands
 }
 
 type StructV struct{ F []Value }
